@@ -33,7 +33,7 @@ def run_check(tier, seed, replay=None):
     generate("MC_Params", wd, vec, constants=dict(consts, Emit="TRUE"), invariants=["Replay"], timeout=6000)
     gen = gen_hex(wd, gen_streams(wd, "quick", seed + 8))
     res = os.path.join(wd, "vec.res")
-    vh_or_isolate(["params-replay", "--in", vec, "--out", res, "--seed", seed, "--streams", 8 if q else 30, "--stride", 5 if q else 3,
+    vh_or_isolate(["params-replay", "--in", vec, "--out", res, "--seed", seed, "--streams", 8 if q else 30, "--stride", 5 if q else 24,
                    "--maxlen", 6000 if q else 40000, "--extra", gen, "--extramax", 6 if q else 40, "--threads", 14],
                   "replay of parameter vectors")
     for rec in read_ndjson(res):
